@@ -19,6 +19,8 @@ REPO = os.environ.get("VERIF_REPO", "/repo")
 SPEC = os.path.join(VERIF, "spec")
 HARNESS = os.path.join(VERIF, "harness")
 NCPU = int(os.environ.get("VERIF_WORKERS", str(os.cpu_count() or 4)))
+# evidence / replays of experiments against a scratch worktree never land in /verif
+OUT = VERIF if REPO == "/repo" else os.path.join(tempfile.gettempdir(), "vf_seed_out")
 
 GOENV = {
     "GOFLAGS": "-mod=mod",
@@ -77,6 +79,11 @@ class Ctx:
         if not os.path.isdir(hdir):
             shutil.copytree(HARNESS, hdir)
             shutil.copy(os.path.join(REPO, "go.sum"), os.path.join(hdir, "go.sum"))
+            if REPO != "/repo":
+                # experiments against a scratch worktree (seeded changes): VERIF_REPO=<dir>
+                gm = os.path.join(hdir, "go.mod")
+                txt = open(gm).read().replace("=> /repo", "=> " + REPO)
+                open(gm, "w").write(txt)
             g = subprocess.run([sys.executable, os.path.join(VERIF, "lib", "genenums.py"), REPO,
                                 os.path.join(hdir, "cmd", "mvh", "zz_enums_gen.go")], capture_output=True, text=True)
             if g.returncode != 0:
@@ -185,7 +192,7 @@ class Ctx:
         viol = 0
         lines = []
         seen_keys = set()
-        os.makedirs(os.path.join(VERIF, "replays", self.prop), exist_ok=True)
+        os.makedirs(os.path.join(OUT, "replays", self.prop), exist_ok=True)
         grouped = {}
         for key, what, replay in self.findings:
             if key not in grouped:
@@ -200,7 +207,7 @@ class Ctx:
                     lines.append("KNOWN-FINDING: property=%s %s" % (self.prop, k.get("what", key)))
                 continue
             viol += 1
-            rp = os.path.join(VERIF, "replays", self.prop, "%s-%d-%d.json" % (self.tier, self.seed, viol))
+            rp = os.path.join(OUT, "replays", self.prop, "%s-%d-%d.json" % (self.tier, self.seed, viol))
             if viol <= 20:
                 with open(rp, "w") as f:
                     json.dump({"property": self.prop, "key": key, "what": what, "tier": self.tier,
@@ -231,8 +238,8 @@ class Ctx:
             "coverage": cov, "assumptions": self.assumptions,
             "wall_s": round(time.time() - self.t0, 1), "violations": viol,
         }
-        os.makedirs(os.path.join(VERIF, "evidence"), exist_ok=True)
-        with open(os.path.join(VERIF, "evidence", self.prop + ".json"), "w") as f:
+        os.makedirs(os.path.join(OUT, "evidence"), exist_ok=True)
+        with open(os.path.join(OUT, "evidence", self.prop + ".json"), "w") as f:
             json.dump(ev, f, indent=1, default=str)
 
 
